@@ -331,6 +331,16 @@ void dispatchArgs(GenState &gs, Node *c) {
     return;
   }
 
+  // every parameter needs a register of its own: the call sequence writes
+  // argument k to register k of the callee frame
+  for (auto &reg : gs.getSymbols().register_state) {
+    if (reg.name == c->tok) {
+      gs.verr(CodegenResult::Error::Type::PARSE_ERROR,
+              "parameter '" + c->tok + "' is declared more than once", c->file,
+              c->line);
+      return;
+    }
+  }
   gs.getSymbols().argnum++;
   gs.getSymbols().fetchVariableRegister(std::string(c->tok));
 }
